@@ -1,7 +1,4 @@
-use std::{
-    hash::Hasher,
-    io::{self, BufRead},
-};
+use std::io::{self, BufRead};
 
 use byteorder::{BigEndian, ByteOrder};
 use bytes::{BufMut, Bytes, BytesMut};
@@ -280,17 +277,27 @@ impl PlainSecretParams {
         alg: PublicKeyAlgorithm,
         public_params: &PublicParams,
     ) -> Result<Self> {
-        let params = Self::try_from_reader_inner(&mut i, alg, public_params)?;
         if version == KeyVersion::V3 || version == KeyVersion::V4 {
-            let checksum = i.read_arr::<2>()?;
-            params.compare_checksum_simple(&checksum)?;
+            // The two-octet checksum covers the octets as they are on the wire, not a
+            // re-serialisation of what was parsed from them.
+            let all = Zeroizing::new(i.rest()?.to_vec());
+            ensure!(all.len() >= 2, "secret key material without checksum");
+            let (body, checksum) = all.split_at(all.len() - 2);
+            let mut body_reader = body;
+            let params = Self::try_from_reader_inner(&mut body_reader, alg, public_params)?;
             ensure!(
-                !i.has_remaining()?,
+                body_reader.is_empty(),
                 "failed to process full secret key material"
             );
+            ensure_eq!(
+                BigEndian::read_u16(checksum),
+                checksum::calculate_simple(body),
+                "Invalid checksum"
+            );
+            return Ok(params);
         }
 
-        Ok(params)
+        Self::try_from_reader_inner(&mut i, alg, public_params)
     }
 
     pub fn string_to_key_id(&self) -> u8 {
@@ -714,17 +721,6 @@ impl PlainSecretParams {
             sum += 2;
         }
         sum
-    }
-
-    fn compare_checksum_simple(&self, other: &[u8]) -> Result<()> {
-        let mut hasher = checksum::SimpleChecksum::default();
-        self.to_writer_raw(&mut hasher)?;
-        ensure_eq!(
-            BigEndian::read_u16(other),
-            hasher.finish() as u16,
-            "Invalid checksum"
-        );
-        Ok(())
     }
 
     fn to_writer_raw<W: io::Write>(&self, writer: &mut W) -> Result<()> {
